@@ -72,9 +72,16 @@ def run_composition(chk: Check, recs: List[dict], shapes: List[dict]) -> None:
             continue
         label = case_label(r)
         bad = None
+        uncovered = None
         for parent, side, form in r["pairs_after"]:
             if parent in ("Abs",) or form in ("Abs", "Any", "Equal"):
                 continue
+            if not any(table.get((parent, side, f)) for f in FORM_MAP.get(form, [])):
+                # no shape of the printer's round-trip domain stands for this pair.  A pair the input tree had already (a
+                # clone of it, or context the rewrite re-linked) is not created by the rule: it is a matter of the input domain
+                before = r.get("pairs_before")
+                if before is None or [parent, side, form] not in before:
+                    uncovered = (parent, side, form)
             for f in FORM_MAP.get(form, []):
                 for s in table.get((parent, side, f), []):
                     if s["outcome"] != "equal":
@@ -90,6 +97,10 @@ def run_composition(chk: Check, recs: List[dict], shapes: List[dict]) -> None:
                      f"the rewrite creates {parent} with a {form} as {side} operand; such a tree prints as {s.get('text')!r} "
                      f"which re-parses as {s.get('back_term') or s.get('note')}: the next state does not print and re-parse",
                      witness={"created_by": r["rule"], "after": r.get("after_shape"), "text": s.get("text")}, where=where_rule(r))
+        elif uncovered:
+            chk.undecided("C09.R3", f"C09.R3:print:{r['rule']}:{uncovered[0]}.{uncovered[1]}={uncovered[2]}:uncovered", label,
+                          f"the rewrite creates {uncovered[0]} with a {uncovered[2]} as {uncovered[1]} operand, a pair outside the "
+                          f"shape domain of the printer round trip", where_rule(r))
         else:
             chk.ok("C09.R3", f"C09.R3:print:{r['rule']}", label, where=where_rule(r))
 
